@@ -81,3 +81,22 @@ def good_results(psi: 'TT', mats):
         tmp.cores[-1] = mats[i]
         out.append(tmp)
     return out
+
+
+_CACHE = {}
+_LIMITS = (1, 2, 3)
+
+
+def bad_cached_eye(dims):
+    # R-f: memoised result: every call with equal dims returns one and the same object
+    key = tuple(dims)
+    if key not in _CACHE:
+        _CACHE[key] = TT([np.eye(n).reshape(1, n, n, 1) for n in dims])
+    return _CACHE[key]
+
+
+def good_reads_module_constant(dims):
+    # negative control: reading a module-level constant, and a local with the same role, is not state
+    cache = {}
+    cache[tuple(dims)] = _LIMITS[0]
+    return TT([np.eye(n).reshape(1, n, n, 1) for n in dims])
